@@ -526,6 +526,24 @@ def simplify_call(key, args):
             return ("const", some)
         if name in ("is_none", "is_err"):
             return ("const", not some)
+    # the `?` operator on values whose variant is known on this path
+    if key.endswith("FromResidual>::from_residual") and args:
+        if key.startswith("<std::result::Result"):
+            inner = args[0]
+            payload = inner[3][0][1] if inner[0] == "agg" and inner[2] == "Err" and inner[3] else ("residual", inner)
+            return ("agg", "std::result::Result", "Err", (("0", payload),))
+        if key.startswith("<std::option::Option"):
+            return ("agg", _OPTION, "None", ())
+    if key.endswith("Try>::branch") and args and args[0][0] == "agg" and args[0][2] is not None:
+        a = args[0]
+        if a[1] == "std::result::Result":
+            if a[2] == "Ok":
+                return ("agg", "std::ops::ControlFlow", "Continue", (("0", a[3][0][1] if a[3] else ("const", ("zst", "()"))),))
+            return ("agg", "std::ops::ControlFlow", "Break", (("0", a),))
+        if a[1] == _OPTION:
+            if a[2] == "Some":
+                return ("agg", "std::ops::ControlFlow", "Continue", (("0", a[3][0][1]),))
+            return ("agg", "std::ops::ControlFlow", "Break", (("0", a),))
     return ("call", key, args)
 
 
